@@ -3,7 +3,7 @@ CFG = dict(
     dirs=["Common", "C06"], gen=True,
     run_targets=["C06/Run.vo"], proof_targets=["C06/Props.vo"], props="C06/Props.v",
     gen_obligations=[
-        "Inst.gen_all_invalidate: every mutator of stored vectors (store_embedding, delete_embedding, store_embedding_with_metadata, batch_delete_embeddings, clear, store_in_collection_with_metadata, delete_from_collection, delete_collection) calls invalidate_hnsw_cache for its collection",
+        "Inst.gen_all_invalidate: every mutator of stored vectors (store_embedding, delete_embedding, store_embedding_with_metadata, batch_delete_embeddings, clear, store_in_collection_with_metadata, delete_from_collection, delete_collection) calls invalidate_hnsw_cache for its collection, and batch_store_embeddings writes its elements only through store_embedding",
         "Inst.gen_dim_guard: the cached branch of search_similar/search_in_collection is taken only for queries of the indexed dimension",
         "Inst.gen_keep_spec: SparseVector::try_from_dense keeps exactly the components with val != 0.0",
         "Inst.gen_constants: |v| > 1e-6 and sparse_threshold 0.5 in the representation choice",
